@@ -562,8 +562,9 @@ def c11_case(rng):
     for _ in range(rng.randint(0, 3)):
         headers.append((b"X-" + traffic.rand_token(rng, 1, 5), traffic.rand_value(rng)))
     rng.shuffle(headers)
-    if trig == "cl-twice":
-        pass
+    if rng.random() < 0.15:
+        # more repeated lines than the per-message repetition budget (64) in front of the trigger: the indicator is due all the same
+        headers = [(b"X-Pad", b"a")] * rng.randint(65, 70) + headers
     req = method + b" " + target + b" " + version + b"\r\n"
     for n, v in headers:
         if v.startswith(b"\r\n"):
@@ -592,6 +593,8 @@ def c11_response_case(rng, trig):
     for _ in range(rng.randint(0, 3)):
         headers.append((b"X-" + traffic.rand_token(rng, 1, 5), traffic.rand_value(rng)))
     rng.shuffle(headers)
+    if rng.random() < 0.15:
+        headers = [(b"X-Pad", b"a")] * rng.randint(65, 70) + headers
     resp = rng.choice((b"HTTP/1.1", b"HTTP/1.1", b"HTTP/1.0")) + b" 200 OK\r\n" + b"".join(hline(rng, n, v) for n, v in headers) + b"\r\n" + body
     exp["resp"] = resp
     return req, exp, trig
@@ -851,6 +854,26 @@ def c04_scripts(ctx):
         # with a suspended CONNECT the library itself decides when the held-back request is started, so the wire schedule is no
         # ground truth for the pipelining indicator there (the indicator is still compared with the model by the correspondence)
         meta.append({"N": N, "pipelined": None if has_connect else pipelined, "reqs": reqs})
+    # keep-alive connections on which the application destroys finished transactions and tells the parser so (htp_connp_tx_freed):
+    # the transaction list shrinks, even to nothing, and later exchanges must still be paired - judged on the callback log, because
+    # the transactions themselves are gone by the end
+    for _ in range(60 if ctx.tier == "quick" else 2500):
+        N = rng.randint(2, 9)
+        sc = ["conn new respdecomp=0,autodestroy=1 -", "conn open"]
+        i = 0
+        while i < N:
+            k = rng.choice((1, 1, 1, 2, 3))          # k requests, then their k responses, then (mostly) tx_freed
+            k = min(k, N - i)
+            for j in range(i, i + k):
+                sc.append("conn req " + traffic.hx(b"GET /k?id%d HTTP/1.1\r\nHost: h\r\n\r\n" % j))
+            for j in range(i, i + k):
+                sc.append("conn res " + traffic.hx(b"HTTP/1.1 200 OK\r\nX-Id: id%d\r\nContent-Length: 1\r\n\r\nx" % j))
+                if rng.random() < 0.8:
+                    sc.append("conn txfreed")
+            i += k
+        sc += ["conn dump", "conn close", "conn destroy"]
+        out.append(sc)
+        meta.append({"N": N, "freed": True})
     return out, meta
 
 
@@ -859,6 +882,16 @@ def make_c04_oracle(by_id):
         w = by_id.get(id(sc))
         if not w:
             return []
+        if w.get("freed"):
+            # i-th response_line must be delivered for the transaction that delivered the i-th request_line; N transactions in all
+            rq_u = [e.tx for e in cl.all_events(sc, outs) if e.name == "request_line"]
+            rs_u = [e.tx for e in cl.all_events(sc, outs) if e.name == "response_line"]
+            found = []
+            if len(rq_u) != w["N"] or len(set(rq_u)) != w["N"]:
+                found.append(("tx-count", "%d request lines on %d transactions for %d requests" % (len(rq_u), len(set(rq_u)), w["N"])))
+            if rs_u != rq_u[:len(rs_u)] or len(rs_u) != w["N"]:
+                found.append(("pairing", "responses were delivered for transactions %s, the requests were %s" % (rs_u, rq_u)))
+            return found
         g, slots = cl.final_dump(sc, outs)
         found = []
         if not g:
